@@ -16,13 +16,15 @@ pub fn meta() -> Meta {
     Meta {
         id: "C08",
         level: "model_checking",
-        rule: "explicit-state BFS over the subset lattice: state = .skf content (hidden fields included) of the remaining samples, actions = the real generic_modes::delete of every non-empty proper subset of the current names, the names given in every order (up to three names; file order, reversed and rotated above) (quick: n<=5 and n=7 with single deletions; thorough: n<=6 and the full lattice for n=8), so every subset is reached along every chain; invariant in every state: the file equals the model table and the real fresh build of the remaining samples (order kept, rows of deleted-only k-mers gone, stored counts = fresh counts). CLI family: names on the command line vs one-per-line names file (with/without trailing newline, blank line, CRLF line ends, trailing blanks), in place and with -o; refusals (unknown name, all samples) must exit non-zero and leave the file byte-identical. Search paths are re-executed through `ska delete`.".into(),
+        rule: "explicit-state BFS over the subset lattice: state = .skf content (hidden fields included) of the remaining samples, actions = the real generic_modes::delete of every non-empty proper subset of the current names, the names given in every order (up to three names; file order, reversed and rotated above) (quick: n<=5 and n=7 with single deletions; thorough: n<=6 and the full lattice for n=8), so every subset is reached along every chain; the lattice is explored from the freshly built file and again from the same file after `weed --filter-ambig-as-missing` (stored counts that exclude ambiguous bases); invariant in every state of the fresh lattice: the file equals the model table and the real fresh build of the remaining samples (order kept, rows of deleted-only k-mers gone, stored counts = fresh counts). CLI family: names on the command line vs one-per-line names file (with/without trailing newline, blank line, CRLF line ends, trailing blanks), in place and with -o; refusals (unknown name, all samples) must exit non-zero and leave the file byte-identical. Search paths are re-executed through `ska delete`.".into(),
         assumptions: vec!["sorted-row canonical form: delete treats rows independently".into()],
         exhaustive_when_uncapped: true, // the declared bounded space (all selections / the whole lattice / all histories up to the depth bound / all interleavings and configurations) is enumerated completely unless capped
     }
 }
 
 struct World {
+    /// start file is a fresh build (then every state must equal a fresh build of its samples)
+    fresh: bool,
     k: usize,
     rc: bool,
     pool: Vec<Vec<Vec<u8>>>,
@@ -73,7 +75,8 @@ impl Sys for World {
         s.write_rot(&inp, s.natural_rot());
         let _ = std::fs::remove_file(&out);
         let remaining: Vec<String> = s.table.names.iter().filter(|n| !a.contains(n)).cloned().collect();
-        let want = self.model(&remaining);
+        // documented effect on the plain table (for a fresh start this is the build of the remaining samples)
+        let want = if self.fresh { self.model(&remaining) } else { s.table.delete(a) };
         match ops::op_delete(&inp, a, &out).and_then(|_| FileState::read(&out)) {
             Err(e) => Err(format!("delete {a:?} failed: {}", e.chars().take(160).collect::<String>())),
             Ok(n) => {
@@ -91,6 +94,13 @@ impl Sys for World {
         }
     }
     fn invariant(&self, s: &FileState) -> Result<(), String> {
+        if !self.fresh {
+            // a file with a history: no all-gap rows may be stored (content is checked per transition)
+            if s.table.rows.values().any(|r| r.iter().all(|b| *b == b'-')) {
+                return Err("a row with no base at all is stored".into());
+            }
+            return Ok(());
+        }
         // equals a real fresh build of the remaining samples, hidden counts included
         let names = &s.table.names;
         let paths: Vec<String> = names.iter().map(|n| self.paths[World::idx_of(n)].clone()).collect();
@@ -123,7 +133,7 @@ fn cli_family(ctx: &Ctx, rep: &mut Report, idx: &mut u64) {
             rep.machinery("C08 cli: build failed".into());
             continue;
         }
-        let w = World { k, rc, pool: pool.clone(), paths: paths.clone(), max_del: 8 };
+        let w = World { fresh: true, k, rc, pool: pool.clone(), paths: paths.clone(), max_del: 8 };
         for mask in 1u32..15 {
             let mut del: Vec<String> = (0..n).filter(|i| mask & (1 << i) != 0).map(|i| names[i].clone()).collect();
             if mask % 2 == 1 {
@@ -236,10 +246,26 @@ pub fn run(ctx: &Ctx, rep: &mut Report) {
                 rep.machinery(format!("C08 start build failed: {e}"));
                 continue;
             }
-            let w = World { k, rc, pool, paths, max_del };
+            let mut w = World { fresh: true, k, rc, pool, paths, max_del };
             let init = FileState::read(&start).expect("read start");
             let one = Ctx { tier: ctx.tier, seed: ctx.seed, shard: 0, nshards: 1, start: ctx.start, cap_s: ctx.cap_s, part: String::new() };
-            let out = bfs::explore(&w, &[init], n, &one, rep, &format!("k={k} rc={rc} n={n}"), false);
+            let out = bfs::explore(&w, &[init.clone()], n, &one, rep, &format!("k={k} rc={rc} n={n}"), false);
+            // the same lattice from a file WITH A HISTORY: written by `weed --filter-ambig-as-missing --min-freq 1/n`,
+            // whose stored per-k-mer counts exclude ambiguous bases (same samples, possibly fewer rows)
+            {
+                let hist = scratch::path("c08_hist.skf");
+                let f = FilterSpec { thr: 1, filt: Filt::NoFilter, ambig_missing: true, mask: false, nogap: false };
+                if ops::op_weed(&start, &ops::WeedArgs::filter_only(n, &f), &hist).is_ok() {
+                    if let Ok(h) = FileState::read(&hist) {
+                        let fresh_counts: Vec<usize> = h.table.rows.values().map(|r| r.iter().filter(|b| **b != b'-').count()).collect();
+                        if fresh_counts != h.counts {
+                            rep.corner("start_file_with_stale_stored_counts");
+                        }
+                        w.fresh = false;
+                        let _ = bfs::explore(&w, &[h], n, &one, rep, &format!("k={k} rc={rc} n={n} after weed --filter-ambig-as-missing"), false);
+                    }
+                }
+            }
             rep.extra.insert(format!("states_cfg{ci}"), json!(out.states));
             if out.states == (1usize << n) - 1 {
                 rep.corner("lattice_closed_with_2^n-1_states");
